@@ -45,8 +45,17 @@ def model(rep, t):
 
 
 def cells(v):
-    val = None if v == 'n' else v
-    return dict(v=val, arr=None if val is None else [val, 1], obj=None if val is None else dict(x=val))
+    """the abstract value as a string cell, an array cell and an object cell: 'a' carries falsy items nested inside
+    (0, False, '', [], {} must be stored as they are), 'b' is the EMPTY array / object, 'n' is null"""
+    if v == 'n':
+        return dict(v=None, arr=None, obj=None)
+    if v == 'b':
+        return dict(v=v, arr=[], obj={})
+    return dict(v=v, arr=[v, 1, 0, False, '', [], {}, None], obj=dict(x=v, zero=0, no=False, empty='', l=[], d={}, nul=None))
+
+
+def same_json(a, b):
+    return json.dumps(a, sort_keys=True) == json.dumps(b, sort_keys=True)      # type-strict: False is not 0
 
 
 def replay_history(item):
@@ -80,7 +89,7 @@ def replay_history(item):
             got_tbl = [(k, v, json.loads(a) if a is not None else None, json.loads(o) if o is not None else None) for k, v, a, o in tbl]
             if variant['pk']:        # an INTEGER PRIMARY KEY is the rowid: insertion order is not observable
                 got_tbl, want_tbl = sorted(got_tbl, key=canon), sorted(want_tbl, key=canon)
-            if got_tbl != want_tbl:
+            if not same_json(got_tbl, want_tbl):
                 return dict(ok=False, why='table after dump %d (%s) differs' % (n, d['mode']), got=got_tbl, want=want_tbl)
             flags = [r.get('upd') for r in down]
             if flags != lg['flags']:
@@ -91,7 +100,7 @@ def replay_history(item):
             for r, o in zip(down, rows):
                 for col in ('arr', 'obj'):
                     if r.get(col) != o[col]:
-                        if isinstance(r.get(col), str) and json.loads(r[col]) == o[col]:
+                        if isinstance(r.get(col), str) and same_json(json.loads(r[col]), o[col]):
                             kf += 1
                         else:
                             return dict(ok=False, why='array/object cell downstream of dump %d differs' % n, got=r.get(col), want=o[col])
